@@ -2,6 +2,7 @@
 import io
 import os
 import pickle
+import sys
 
 from vlib import values
 from vlib.runner import Failure, ShardResult, hypothesis_search
@@ -26,7 +27,8 @@ RULE = (
     "table; returned => rank(v) <= rank(T), value and sink log "
     "equal to the stock unpickler's on the same bytes; rank(v) > rank(T) => UnsafeFileError with "
     "info['severity'] == v; where the path honours T, rank(v) <= rank(T) => returns; every "
-    "non-return leaves the sink log empty and raises no pickle.find_class audit event; a flip "
+    "non-return leaves the sink log empty, raises no pickle.find_class audit event and imports no "
+    "module the pickle names (importable-but-unloaded canary module and dotted canary package); a flip "
     "stream must behave as its pre-flip (benign) content. Non-trivial = verdict above "
     "LIKELY_SAFE, or flip / non-seekable stream, or an injected fault, or analysis raises; "
     "distinct = distinct (bytes, stream, threshold, path, fault)."
@@ -62,7 +64,13 @@ FLAGGED = (
     b"cverif_sink\nsink\n)R0]q\x00(K\x01K\x02e.",  # flagged call hidden before benign data
     b"(cverif_sink\nsink\nS'tag5'\no.",
     b"cverif_sink\nsink\n)\x81.",
+    # modules that are importable but not yet imported (a top-level one and a dotted one whose
+    # parent package would have to be imported to even locate it)
+    b"cverif_canary\nfire\n(S'x'\ntR.",
+    b"cverif_canary_pkg.sub\nthing\n)R.",
+    b"\x80\x04\x8c\x1bverif_canary_pkg.sub.deeper\x8c\x01x\x93.",
 )
+CANARY_ROOTS = ("verif_canary", "verif_canary_pkg")
 PY2_STYLE = (
     b"\x80\x02U\x03abcq\x00.",  # SHORT_BINSTRING: str or bytes depending on `encoding`
     b"c__builtin__\nset\nq\x00]q\x01K\x01a\x85q\x02Rq\x03.",  # needs fix_imports to resolve
@@ -73,7 +81,12 @@ KWARGS = ({}, {}, {}, {"encoding": "latin1"}, {"encoding": "bytes"}, {"fix_impor
 # floors of the flagged payloads by the documented rules (C04), independent of what the
 # analysis under test says on this particular call: a load may only return if the accepted
 # severity is at least this
-FLOORS = {1: 3, 2: 3, 3: 3, 4: 4, 5: 4, 6: 5, 7: 5, 9: 3, 10: 3, 11: 3}
+FLOORS = {1: 3, 2: 3, 3: 3, 4: 4, 5: 4, 6: 5, 7: 5, 9: 3, 10: 3, 11: 3, 12: 3, 13: 3, 14: 3}
+
+
+def _forget_canaries():
+    for m in [m for m in sys.modules if m.split(".")[0] in CANARY_ROOTS]:
+        del sys.modules[m]
 
 
 def floor_for(data):
@@ -273,8 +286,6 @@ def run_case(data, stream_kind, threshold, path, fault, scratch, flip_to=None, k
     case = {"hex": data.hex(), "stream": stream_kind, "threshold": threshold, "path": path,
             "fault": fault, "flip_to": flip_to.hex() if flip_to else None, "kwargs": kwargs or {}}  # fmt: skip
     kwargs = dict(kwargs or {})
-    if path in ("context", "outer_context_after_inner", "context_after_ml_cycle"):
-        kwargs = {}  # the context manager's wrapper is not part of what is varied here
     reset_pickle_bindings()
     v = verdict_of(data)
     want = stock(data, kwargs) if v[0] == "ok" else None
@@ -295,6 +306,7 @@ def run_case(data, stream_kind, threshold, path, fault, scratch, flip_to=None, k
 
     loader.check_safety = wrapped
     verif_sink.reset()
+    _forget_canaries()
     outcome = None
     try:
         with mon.watch() as events:
@@ -309,7 +321,7 @@ def run_case(data, stream_kind, threshold, path, fault, scratch, flip_to=None, k
                     r = pk.load(src, max_acceptable_severity=T, **kwargs)
                 elif path == "context":
                     with fickling.check_safety():
-                        r = pk.load(src)
+                        r = pk.load(src, **kwargs)
                 elif path == "hook_after_context":
                     # the global hook stays armed after an inner context has come and gone
                     fickling.always_check_safety()
@@ -320,13 +332,13 @@ def run_case(data, stream_kind, threshold, path, fault, scratch, flip_to=None, k
                     with fickling.check_safety():
                         with fickling.check_safety():
                             pass
-                        r = pk.load(src)
+                        r = pk.load(src, **kwargs)
                 elif path == "context_after_ml_cycle":
                     # an ML environment was activated and removed earlier in the process
                     fickling.hook.activate_safe_ml_environment()
                     fickling.hook.deactivate_safe_ml_environment()
                     with fickling.check_safety():
-                        r = pk.load(src)
+                        r = pk.load(src, **kwargs)
                 else:
                     raise ValueError(path)
                 outcome = ("returned", r)
@@ -339,7 +351,10 @@ def run_case(data, stream_kind, threshold, path, fault, scratch, flip_to=None, k
                     raise
                 outcome = ("raised", e)
         evs = [e for e in events if e[0] == "pickle.find_class"]
+        imported = sorted({e[1] for e in events if e[0] == "import" and e[1].split(".")[0] in CANARY_ROOTS}
+                          | {m for m in sys.modules if m.split(".")[0] in CANARY_ROOTS})
     finally:
+        _forget_canaries()
         loader.check_safety = real_check
         reset_pickle_bindings()
         if fh is not None:
@@ -362,6 +377,8 @@ def run_case(data, stream_kind, threshold, path, fault, scratch, flip_to=None, k
             return fail(f"did not return ({outcome[0]}: {outcome[1]!r}) but the sink ran: {log!r}")
         if evs:
             return fail(f"did not return ({outcome[0]}) but resolved globals: {evs!r}")
+        if imported:
+            return fail(f"did not return ({outcome[0]}) but imported {imported}, named by the pickle")
     if fault:
         if outcome[0] == "returned":
             return fail(f"analysis failed with an injected {fault} but the load returned {outcome[1]!r}")
